@@ -542,7 +542,12 @@ class VizierServicer(vizier_service_pb2_grpc.VizierServiceServicer):
       study_resource = StudyResource.from_name(request.parent)
       trial.name = (study_resource.trial_resource(trial.id)).name
 
-      if trial.state != study_pb2.Trial.State.SUCCEEDED:
+      # A Trial evaluated elsewhere is added as completed, whether it succeeded
+      # or turned out infeasible; anything else waits in the REQUESTED pool.
+      if trial.state not in (
+          study_pb2.Trial.State.SUCCEEDED,
+          study_pb2.Trial.State.INFEASIBLE,
+      ):
         trial.state = study_pb2.Trial.State.REQUESTED
       trial.ClearField('client_id')
 
